@@ -29,9 +29,9 @@ CHECKS.update({
         level="exploration", engine="bex",
         text="Every int-sorted program of a typed grammar of the value language (let, func with bounded-descent recursion, closures with 1..2 "
              "parameters, currying, if/switch/try, list/map literals, index, member, map-field closure calls, map/reduce/sum/size/append, min/throw) "
-             "with <= 7 (thorough: 8) nodes, and every nesting of <= 3 (thorough: 5) binding/call constructs in every argument position with a maximal "
+             "with <= 7 (thorough: 8) nodes, and every nesting of <= 4 (thorough: 5) binding/call constructs in every argument position with a maximal "
              "observer in the innermost hole, is generated with the optimizer on and off and evaluated on every argument tuple; the outcome must "
-             "equal that of an independent reference interpreter. Exhaustive within those bounds (about 9.5 M evaluations quick).",
+             "equal that of an independent reference interpreter. Exhaustive within those bounds (about 11 M evaluations quick).",
         note="Trusted: the reference interpreter internal/refsem (lexically scoped, call-by-value, left-to-right; only ok-vs-error for faults) and the "
              "renderer internal/vlang. Not decided: programs larger than the bounds, floats/strings as arguments (covered by C02/C14 tables).",
         technique="bounded-exhaustive enumeration of programs x argument tuples x optimizer settings against a reference interpreter",
@@ -91,7 +91,8 @@ CHECKS.update({
              "execution at item 12, failing elements in the sequential and the parallel phase, merge with stack-using operands, multiUse consumer pairs, nested "
              "parallel stages) ALL interleavings are explored on the real code (stateless DFS, history-key pruning, no preemption bound) and every terminal "
              "state is checked: outcome = strictly sequential reference, no happens-before data race on the value stacks, no deadlock, no panic on a "
-             "library goroutine.",
+             "library goroutine. A conformance pass evaluates every quick scenario on the PLAIN build (real goroutines, a really sleeping slow()) against "
+             "the sequential variant.",
         note=VS + " List lengths beyond 17 and more than 3 elements in the parallel phase are not explored (each further element repeats the same worker cycle). "
              "A multiUse consumer that never iterates its list yields the pinned 'iterator timed out' error (repository test) and is excluded from the outcome oracle.",
         technique="stateless model checking of the implementation under a controlled scheduler: exhaustive interleaving exploration with vector-clock race detection",
@@ -102,7 +103,7 @@ CHECKS.update({
 CHECKS.update({
     "C12": dict(
         level="model_checking", engine="vsched",
-        text="Every token sequence of <= 3 (thorough: 4) tokens over a 24-token alphabet and longer programs cut at every token or followed by trailing tokens "
+        text="Every token sequence of <= 4 (thorough: 5) tokens over a 24-token alphabet and longer programs cut at every token or followed by trailing tokens "
              "(every way parsing can stop early), on the generic parser and on value Generate, and ~250 (thorough: ~900) pipeline evaluations whose consumer stops "
              "early (first, top, present, indexWhere, single, ~, multiUse) or whose elements fail, around the switch to parallel execution, are run on the real "
              "code under the controlled scheduler with ALL interleavings; at every terminal state every vthread must have terminated, and the number of "
@@ -247,8 +248,8 @@ CHECKS.update({
     "C11": dict(
         level="model_checking", engine="vsched",
         text="38 (thorough: 42) programs whose folded constants meet run-time values (lazy, eager, nested and map-embedded list constants indexed, appended, sorted, "
-             "compared, searched; constant maps, closures, strings; recursion; failing accesses) are generated freshly inside every execution and evaluated by T=2 "
-             "(thorough: 2,3) vthreads at once with equal and different arguments under the controlled scheduler. Every read/write of value.List's fields items, "
+             "compared, searched; constant maps, closures, strings; recursion; failing accesses) are generated freshly inside every execution and evaluated by T=2 and T=3 "
+             "vthreads at once with equal and different arguments under the controlled scheduler. Every read/write of value.List's fields items, "
              "itemsPresent, iterable, size (generated hooks at all 73 access sites) is a scheduling point and a race-checked access, so ALL sequentially consistent "
              "interleavings at field granularity are explored; every vthread's outcome must equal its isolated outcome and no two conflicting accesses may be "
              "unordered by happens-before.",
